@@ -225,7 +225,54 @@ class Analysis:
                     b = self._batch(fn, e.lst[1])
                     b["pushes"].append((fx, e))
         # ---------- retains: recurse into closure paths / batch deletions
+        # "release everything in L that satisfies G": the Released events are collected from a filtered walk over the
+        # held lists themselves, and each list is then pruned by a retain that drops exactly the elements satisfying G
+        bulk_done = set()
+        for e in effs:
+            if e.kind != "MAPEMIT":
+                continue
+            variant, it, res = e.aux
+            base = it[1] if isinstance(it, tuple) and it[0] == "iter" else it
+            if isinstance(list_of(base), tuple):
+                continue        # a local batch: handled below
+            from . import tables
+            pl = tables.pipeline(self.ctx.body, it)
+            if pl["problems"] or pl["enum"] or variant != "Released":
+                continue
+            lists = [list_of(b_[1]) for b_ in pl["bases"]]
+            if not lists or not all(held(l_) for l_ in lists) or len(set(lists)) != len(lists):
+                continue
+            keyok = isinstance(e.key, tuple) and e.key[0] == "mapelem" and pl["elem"] == T("elem", pl["base"], None)
+            okall = keyok
+            why = None if keyok else "the mapped value is not the visited key itself"
+            for b_, l_ in zip(pl["bases"], lists):
+                rs = [r for r in retains if r.lst == l_ and r.pos > e.pos and r.sub and len(r.sub) == 1]
+                if len(rs) != 1:
+                    okall, why = False, "%s is walked for Released events but not pruned by exactly one later retain" % l_
+                    continue
+                r = rs[0]
+                sub, verdict = r.sub[0]
+                relem = T("retelem", mir.strip(r.ev.b[0]), r.ev.blk)
+                G = [(mir.subst(a, {T("elem", pl["base"], None): relem, T("elem", b_, None): relem}) if isinstance(a, tuple) else a, v) for a, v in pl["guards"]]
+                same = False
+                pure = mir.Evaluator(fx.body, {})._is_pure
+                impure = [x for x in sub.effects if not (x.kind == "CALL" and pure(x.key))]
+                if isinstance(verdict, tuple) and verdict[0] == "expr" and not impure and len(G) == 1:
+                    keep = verdict[1]
+                    ga, gv = G[0]
+                    same = (keep == T("not", ga) and gv is True) or (keep == ga and gv is False)
+                if not same:
+                    okall, why = False, "the retain on %s does not drop exactly the keys that were collected for release" % l_
+                    continue
+                if any(x.pos > e.pos and x.pos < r.pos and x.lst == l_ and x.kind in ("ADD", "DEL", "RETAIN") and x is not r for x in effs):
+                    okall, why = False, "%s changes between the walk and the retain" % l_
+                bulk_done.add(id(r))
+            bulk_done.add(id(e))
+            self.emit_sites.add((fx.body.path, e.ev.blk))
+            self.txs.append(Tx("BULKRELEASE", fn, lists, None, fx, [e], guard_ok=okall, why=why))
         for r in retains:
+            if id(r) in bulk_done:
+                continue
             if not r.sub:
                 if held(r.lst):
                     self.problem(fn, "retain-closure-unreadable:%s" % r.lst, "retain with a non-closure predicate", r.ev)
@@ -251,7 +298,7 @@ class Analysis:
                 self._path(fn, sub, r, verdict2)
         # MAPEMIT
         for e in effs:
-            if e.kind == "MAPEMIT":
+            if e.kind == "MAPEMIT" and id(e) not in bulk_done:
                 variant, it, res = e.aux
                 base = it[1] if isinstance(it, tuple) and it[0] == "iter" else it
                 l = list_of(base)
